@@ -80,6 +80,10 @@ def explain(ctx, case, cfg, impl_line, model_line):
         return
     k, L, d = case.split()[:3]
     if impl_line.startswith("signal"):
+        seen = ctx.extra.setdefault("_sym_crash_reported", {})
+        seen[k] = seen.get(k, 0) + 1
+        if seen[k] > 2:
+            return
         # the REAL kernel, run on symbolic elements, killed the harness process or did not come back within the watchdog:
         # an access outside the symbolic slices' backing store, a panic that aborts, or a loop that does not terminate
         ctx.violation("sym-crash:%s" % case, "generic kernel %s with %s lanes, dims=%s: the real kernel %s when run on symbolic input "
